@@ -102,6 +102,7 @@ class OtherCompu:
     `scales` is a list of dicts with keys lower, upper (value, type) | None, num, den, inv"""
     category: str
     scales: List[dict]
+    inv_scales: Optional[List[dict]] = None     # COMPU-PHYS-TO-INTERNAL (RAT-FUNC inverse)
     tag = "other"
 
 
